@@ -14,6 +14,9 @@ package main
 // both parties hold these labels) and given to the Coq model
 // (coq/theories/OT/RunC20.v), which must reproduce every observable; for
 // short vectors the model also computes the AES-CTR label expansion itself.
+// Every session additionally yields one HISTORY case (c20History, op 6): the
+// model is given the raw key streams of the base-OT wires and Delta only and
+// derives the labels of every call of the session itself (OT/VoleHist.v).
 // Part 2 (bmr): FxSend/FxReceive/FxkSend/FxkReceive over a real CO pair on
 // ot.NewPipe, crypto/rand.Reader replaced by a harness reader so that the
 // label of bmr.NewLabel is chosen here; the OT is wrapped to record the
@@ -909,6 +912,88 @@ func c20Finish(c *Ctx, s *c20Session, aesMode bool, allSlices bool, what string)
 			break
 		}
 	}
+	c20History(c, s, what)
+}
+
+// c20History emits the session's Mul calls, from the start of the session, as
+// ONE correspondence case (op 6, coq/theories/OT/VoleHist.v): the model gets
+// only the IKNP set-up of the pair — the key streams of the 128 base-OT wires
+// (AES-CTR of L0 and of L1, as raw bytes, with slack) and the sender's Delta
+// (its 128 base-OT choice flags) — and the operands of every call; it has to
+// derive the labels of every call itself (IKNP model at the stream offset the
+// earlier calls left) and reproduce rs and us of every call.  The prefix of
+// the session that fits the case-size budget is taken.
+func c20History(c *Ctx, s *c20Session, what string) {
+	if len(s.wires) != 128 || len(s.k0flags) != 128 {
+		return
+	}
+	const maxByteRows, maxElems = 48, 160
+	var calls, outs []SX
+	var labels []ot.Label
+	var pads []*big.Int
+	nb, elems, n := 0, 0, 0
+	for _, op := range s.ops {
+		m := len(op.xs)
+		if op.sErr != nil || op.rErr != nil || len(op.ys) != m || len(op.rs) != m || len(op.us) != m || len(op.labels) != m {
+			break
+		}
+		br := 0
+		for ofs := 0; ofs < m; ofs += 512 {
+			rows := m - ofs
+			if rows > 512 {
+				rows = 512
+			}
+			br += (rows + 7) / 8
+		}
+		if nb+br > maxByteRows || elems+m > maxElems {
+			break
+		}
+		nb += br
+		elems += m
+		n++
+		calls = append(calls, L(Big(op.p), c20Bigs(op.xs), c20Bigs(op.ys)))
+		outs = append(outs, L(I(1), c20Bigs(op.rs), c20Bigs(op.us)))
+		labels = append(labels, op.labels...)
+		pads = append(pads, op.pads...)
+	}
+	if n == 0 || elems == 0 {
+		return
+	}
+	var delta ot.Label
+	for j, f := range s.k0flags {
+		if f {
+			if j < 64 {
+				delta.D0 |= 1 << uint(j)
+			} else {
+				delta.D1 |= 1 << uint(j-64)
+			}
+		}
+	}
+	stream := func(key ot.Label) SX {
+		var ld ot.LabelData
+		key.GetData(&ld)
+		blk, err := aes.NewCipher(ld[:])
+		if err != nil {
+			panic(err)
+		}
+		var iv [16]byte
+		buf := make([]byte, nb+4)
+		cipher.NewCTR(blk, iv[:]).XORKeyStream(buf, buf)
+		return Bytes(buf)
+	}
+	g0 := make([]SX, 128)
+	g1 := make([]SX, 128)
+	for j := range s.wires {
+		g0[j] = stream(s.wires[j].L0)
+		g1[j] = stream(s.wires[j].L1)
+	}
+	mode := 0
+	tl, tp := Labels(labels), c20Bigs(pads)
+	if elems <= 24 {
+		mode, tl, tp = 1, L(), L()
+	}
+	c.Case(L(I(6), I(mode), Label(delta), L(g0...), L(g1...), tl, tp, L(calls...)), L(outs...))
+	c.Hist(fmt.Sprintf("vole:history:calls=%02d", n))
 }
 
 // ---------------------------------------------------------------------------
